@@ -201,6 +201,10 @@ pub fn gen(prop: &str, seed: u64) -> Plan {
         "C09" => gen_c09(seed),
         "C08" => gen_c08(seed),
         "C10" => gen_c10(seed),
+        "C01" => gen_byz(seed, "C01"),
+        "C02" => gen_byz(seed, "C02"),
+        "C06" => gen_byz(seed, "C06"),
+        "C12" => gen_byz(seed, "C12"),
         _ => gen_c03(seed),
     }
 }
@@ -546,4 +550,86 @@ fn gen_c10(seed: u64) -> Plan {
     }
     b.plan.flags = vec!["byz".into(), "no_ban_reconnect_delay".into()];
     finish(b, until, 60_000)
+}
+
+/// Deviating peers mutate their own honest answers (kinds chosen per property).
+fn gen_byz(seed: u64, prop: &str) -> Plan {
+    let mut b = base(prop, seed, 200, 3);
+    if b.rng.chance(1, 2) {
+        b.plan.knobs.last_n = pick(&mut b.rng, &[2u64, 3, 5, 10]);
+    }
+    // which answer kinds are attacked: codes of sim::Kind
+    let kinds: Vec<u32> = match prop {
+        "C01" => vec![1],            // SendLastStateProof
+        "C02" => vec![7, 2, 3],      // SendBlock, SendBlocksProof, SendTransactionsProof
+        "C06" => vec![4],            // BlockFilters
+        _ => vec![0, 1],             // C12: SendLastState, SendLastStateProof
+    };
+    let np = b.plan.peers.len();
+    // at least one deviating peer; in half of the runs one honest peer remains
+    let n_dev = if np == 1 { 1 } else { b.rng.range(1, np as u64) as usize };
+    for p in 0..n_dev {
+        let n_mut = b.rng.range(1, 6);
+        for _ in 0..n_mut {
+            let kind = *b.rng.pick(&kinds);
+            let op = match b.rng.below(12) {
+                0 => 1000,
+                1 => 1002,
+                _ => b.rng.below(14) as u32,
+            };
+            b.plan.peers[p].mutations.push(MutSpec {
+                kind,
+                ordinal: b.rng.below(if kind == 4 || kind == 7 { 12 } else { 4 }),
+                op,
+                seed: b.rng.next_u64(),
+            });
+        }
+        b.plan.peers[p].identity = 500 + p as u64;
+    }
+    connect_all(&mut b, 3_000);
+    let until = b.rng.range(40_000, 200_000);
+    growth(&mut b, until);
+    let tip = b.plan.initial_blocks;
+    // scripts so that filter sync / block download / proofs of blocks happen
+    if prop != "C01" || b.rng.chance(1, 2) {
+        let at = b.rng.range(0, 5_000);
+        let mut scripts = random_scripts(&mut b, 3, tip);
+        for s in scripts.iter_mut() {
+            if b.rng.chance(2, 3) {
+                s.1 = b.rng.range(0, (tip / 2).max(1));
+            }
+        }
+        add(&mut b.plan, at, Action::User(UserOp::SetScripts { cmd: SetCmd::All, scripts }));
+    }
+    if prop == "C02" {
+        for _ in 0..b.rng.range(1, 5) {
+            let at = b.rng.range(1_000, until);
+            let number = b.rng.range(0, tip);
+            let op = if b.rng.chance(1, 2) {
+                UserOp::FetchHeader(HashRef::Block { branch: 0, number })
+            } else {
+                UserOp::FetchTransaction(HashRef::Tx { branch: 0, number, k: b.rng.range(0, 2) })
+            };
+            add(&mut b.plan, at, Action::User(op));
+        }
+    }
+    // bursts make already proven peers prove again over large gaps (sampled proofs)
+    for _ in 0..b.rng.range(0, 3) {
+        let at = b.rng.range(10_000, until);
+        let n = b.rng.range(b.plan.knobs.last_n + 1, b.plan.knobs.last_n + 60);
+        add(&mut b.plan, at, Action::Mine { branch: 0, n });
+    }
+    if b.rng.chance(1, 4) {
+        add(&mut b.plan, b.rng.range(5_000, until), Action::Restart);
+    }
+    b.plan.flags = vec!["byz".into(), format!("byz_{}", prop)];
+    if prop == "C06" {
+        b.plan.flags.push("byz_filters".into());
+        b.plan.flags.push("index".into());
+    }
+    if prop == "C02" {
+        b.plan.flags.push("byz_blocks".into());
+        b.plan.flags.push("index".into());
+    }
+    finish(b, until, 500_000)
 }
